@@ -1,4 +1,4 @@
-import AasVerif.Lemmas.JsonSchemaClass
+import AasVerif.Lemmas.JsonSchemaInherit
 /-!
 # C12 — JSON Schema enforces every inferred constraint
 
@@ -173,6 +173,39 @@ theorem standalone_enforced (defs : Defs) {c : Cls} {k : Text} {s : Schema}
     ¬ Valid defs s j :=
   fun hv => hbad ((standalone_iff defs h hleaf hroot hown hnd hnm j).mp hv)
 
+/-! ## One step up the inheritance chain -/
+
+/-- **a constraint declared in a parent is enforced on the child's documents**: the child's
+definition references the parent's inheritable definition (`_define_all_of_for_inheritance`); if that
+definition is in `defs` under the referenced name and `p` is an own property of the parent, a member
+value breaking `p`'s annotation makes the child's definition reject the object. -/
+theorem parent_property_enforced (defs : Defs) {c par : Cls} {k kp : Text} {s sp : Schema} {i : Inh}
+    (h : concreteDefinition c = .ok (k, s)) (hleaf : c.cdesc = []) (hi : i ∈ c.inh)
+    (hpar : inheritableDefinition par = .ok (kp, sp)) (hname : i.refName = kp)
+    (hunique : ∀ s', lookup kp defs = some s' → s' = sp)
+    (hnd : (par.props.map (·.name)).Nodup) {p : Prp} (hmem : p ∈ par.props) (hown : p.own = true)
+    (hnm : p.name ≠ modelTypeKey) {spp : Schema} (hd : defineType p.ty = .ok spp)
+    {kvs : List (Text × Json)} {v : Json} (hl : lookup p.name kvs = some v) (hbad : ¬ Sat defs p.ty v) :
+    ¬ Valid defs s (.obj kvs) :=
+  fun hv => hbad (JsonSchema.parent_property_enforced defs h hleaf hi hpar hname hunique hnd hmem hown hnm hd hv v hl)
+
+/-- the step for longer chains: whatever an inheritable definition accepts is accepted by the
+definitions it references in turn (so `inheritable_own_property` applies to every ancestor whose
+definition is in `defs`) -/
+theorem ancestor_step (defs : Defs) {c : Cls} {k : Text} {s : Schema}
+    (h : inheritableDefinition c = .ok (k, s)) {j : Json} (hv : Valid defs s j) :
+    ∀ i ∈ c.inh, Valid defs (refTo i.refName) j :=
+  inheritable_parents defs h hv
+
+/-- an inheritable definition enforces the annotations of the class's own properties -/
+theorem inheritable_property_enforced (defs : Defs) {c : Cls} {k : Text} {s : Schema}
+    (h : inheritableDefinition c = .ok (k, s))
+    (hnd : (c.props.map (·.name)).Nodup) {p : Prp} (hmem : p ∈ c.props) (hown : p.own = true)
+    (hnm : p.name ≠ modelTypeKey) {sp : Schema} (hd : defineType p.ty = .ok sp)
+    {kvs : List (Text × Json)} {v : Json} (hl : lookup p.name kvs = some v) (hbad : ¬ Sat defs p.ty v) :
+    ¬ Valid defs s (.obj kvs) :=
+  fun hv => hbad (inheritable_own_property defs h hnd hmem hown hnm hd hv v hl)
+
 /-! ### Non-vacuity -/
 
 /-- `@serialization(with_model_type=True) class Lonely: x: int; name: str  (1 ≤ len(name) ≤ 3)` -/
@@ -198,5 +231,23 @@ example : ∃ s, concreteDefinition lonely = .ok (ascii "Lonely", s) ∧
     validates [] 6 s (.obj [(ascii "name", .str (ascii "abc")),
       (modelTypeKey, .str (ascii "Lonely"))]) = some false := by
   refine ⟨_, rfl, rfl, rfl, by decide, by decide, by decide, by decide, ?_, ?_, ?_, ?_, ?_, ?_⟩ <;> decide
+
+/-- `@abstract @serialization(with_model_type=True) class Root: name: str (len ≤ 3)`, `class Leaf(Root)` -/
+def rootC : Cls := ⟨ascii "Root", true, true, [],
+  [⟨ascii "name", false, true, .prim .str (some ⟨some ⟨none, some 3⟩, none⟩), []⟩], [ascii "Leaf"]⟩
+def leafC : Cls := ⟨ascii "Leaf", false, true, [⟨ascii "Root", false, true⟩],
+  [⟨ascii "name", false, false, .prim .str (some ⟨some ⟨none, some 3⟩, none⟩), [some ⟨some ⟨none, some 3⟩, none⟩]⟩], []⟩
+def twoDefs : Defs := match generate ⟨[.cls rootC, .cls leafC]⟩ with | .ok d => d | _ => []
+
+/-- the hypotheses of `parent_property_enforced` are met by a two-class hierarchy; the parent's bound is
+enforced on the child's document although the child's own definition does not mention it -/
+example : (match concreteDefinition leafC, inheritableDefinition rootC with
+    | .ok (k, s), .ok (kp, _) =>
+      k == ascii "Leaf" && kp == ascii "Root" && (lookup kp twoDefs).isSome &&
+      (refsSchema s).contains (ascii "Root") &&
+      validates twoDefs 12 s (.obj [(ascii "name", .str (ascii "abc")), (modelTypeKey, .str (ascii "Leaf"))]) == some true &&
+      validates twoDefs 12 s (.obj [(ascii "name", .str (ascii "abcd")), (modelTypeKey, .str (ascii "Leaf"))]) == some false &&
+      validates twoDefs 12 s (.obj [(ascii "name", .str (ascii "abc"))]) == some false
+    | _, _ => false) = true := by decide
 
 end AasVerif.Props.C12
